@@ -27,6 +27,8 @@ const SENTINEL: i64 = 0x0123_4567_89ab;
 const PAD: [u8; 2] = [0x2a, 0x2a];
 const PATHS: [&str; 3] = ["slice", "reader-whole", "reader-1byte"];
 
+const ALL_EMB: [Emb; 8] = [Emb::W1, Emb::W2, Emb::W3Array, Emb::W3Map, Emb::W4, Emb::L0, Emb::L1, Emb::L4];
+
 #[derive(Clone, Copy, Debug, PartialEq, Eq)]
 pub enum Emb {
 	W1,
@@ -34,6 +36,12 @@ pub enum Emb {
 	W3Array,
 	W3Map,
 	W4,
+	/// the bare datum S, the input ends exactly where the datum ends
+	L0,
+	/// record{sentinel: long, ignored: S}: the ignored part is the last thing of the input
+	L1,
+	/// record{sentinel: long, u: [long, S]}: a union branch at the end of the input
+	L4,
 }
 impl Emb {
 	fn name(self) -> &'static str {
@@ -43,17 +51,36 @@ impl Emb {
 			Emb::W3Array => "W3a",
 			Emb::W3Map => "W3m",
 			Emb::W4 => "W4",
+			Emb::L0 => "L0",
+			Emb::L1 => "L1",
+			Emb::L4 => "L4",
 		}
 	}
 	fn parse(s: &str) -> Option<Emb> {
-		[Emb::W1, Emb::W2, Emb::W3Array, Emb::W3Map, Emb::W4].into_iter().find(|e| e.name() == s)
+		ALL_EMB.into_iter().find(|e| e.name() == s)
 	}
 	/// how deep below the wrapper's root targets are enumerated
 	fn target_depth(self) -> usize {
 		match self {
 			Emb::W1 => usize::MAX,
 			Emb::W2 => 1,
-			Emb::W3Array | Emb::W3Map | Emb::W4 => 2,
+			Emb::W3Array | Emb::W3Map | Emb::W4 | Emb::L0 | Emb::L1 | Emb::L4 => 2,
+		}
+	}
+	/// the schema is S itself: no wrapper record, no sentinel
+	fn bare(self) -> bool {
+		self == Emb::L0
+	}
+	/// the ignored part comes last and nothing follows the datum in the input
+	fn ends_input(self) -> bool {
+		matches!(self, Emb::L0 | Emb::L1 | Emb::L4)
+	}
+	/// index of the sentinel field in the wrapper record
+	fn sentinel_idx(self, n_payload: usize) -> Option<usize> {
+		match self {
+			Emb::L0 => None,
+			Emb::L1 | Emb::L4 => Some(0),
+			_ => Some(n_payload),
 		}
 	}
 }
@@ -169,6 +196,15 @@ fn wrapper(emb: Emb, s: &RSchema, id: usize) -> Option<(RSchema, usize)> {
 		Emb::W2 => (S::record(&name, vec![("a", s.clone()), ("b", lay::rename(s, "_b")), ("sentinel", S::Long)]), 2),
 		Emb::W3Array => (S::record(&name, vec![("arr", S::array(s.clone())), ("sentinel", S::Long)]), 1),
 		Emb::W3Map => (S::record(&name, vec![("m", S::map(s.clone())), ("sentinel", S::Long)]), 1),
+		Emb::L0 => (s.clone(), 1),
+		Emb::L1 => (S::record(&name, vec![("sentinel", S::Long), ("ignored", s.clone())]), 1),
+		Emb::L4 => {
+			if matches!(s, S::Union(_)) {
+				return None;
+			}
+			let other = if matches!(s, S::Long) { S::Boolean } else { S::Long };
+			(S::record(&name, vec![("sentinel", S::Long), ("u", S::Union(vec![other, s.clone()]))]), 1)
+		}
 		Emb::W4 => {
 			if matches!(s, S::Union(_)) {
 				return None; // unions may not immediately contain unions
@@ -181,7 +217,7 @@ fn wrapper(emb: Emb, s: &RSchema, id: usize) -> Option<(RSchema, usize)> {
 
 pub fn units(p: &Params) -> Vec<Unit> {
 	let mut out = Vec::new();
-	for emb in [Emb::W1, Emb::W2, Emb::W3Array, Emb::W3Map, Emb::W4] {
+	for emb in ALL_EMB {
 		let level = if emb == Emb::W1 { p.level_w1 } else { p.level_other };
 		for s in gen::schema_alphabet(level) {
 			let id = out.len();
@@ -523,9 +559,15 @@ fn run_leaf(ctx: &Ctx, v: &RValue, bytes: &[u8], rec: &[Vec<Block>], replay_base
 	}
 	let len = bytes.len();
 	let mut padded = bytes.to_vec();
-	padded.extend_from_slice(&PAD);
+	if !ctx.u.emb.ends_input() {
+		padded.extend_from_slice(&PAD);
+	}
+	let pad_text = if ctx.u.emb.ends_input() { "the input ends here" } else { "+2 padding bytes 2a 2a" };
 	let full_hint = gen::hint_for(v, s, ctx.env, ObsMode::Hinted);
 	cover.evaluations += 1;
+	if ctx.u.emb.ends_input() {
+		cover.count("leaves_ending_the_input", 1);
+	}
 	// non-ignoring decodes, one per input path
 	let mut baseline: Vec<Option<O>> = Vec::new();
 	for (pi, pname) in PATHS.iter().enumerate() {
@@ -535,7 +577,7 @@ fn run_leaf(ctx: &Ctx, v: &RValue, bytes: &[u8], rec: &[Vec<Block>], replay_base
 			println!("  non-ignoring decode, {pname}: {seen:?}");
 		}
 		match seen {
-			Seen::Ok(o, n) if n == len && sentinel_of(&o) == Some(&O::I64(SENTINEL)) => baseline.push(Some(o)),
+			Seen::Ok(o, n) if n == len && (ctx.u.emb.bare() || sentinel_of(&o) == Some(&O::I64(SENTINEL))) => baseline.push(Some(o)),
 			_ => {
 				// the non-ignoring decode itself is wrong: that is C03's subject, C12 has no reference here
 				cover.count("baseline_decode_unusable", 1);
@@ -554,7 +596,8 @@ fn run_leaf(ctx: &Ctx, v: &RValue, bytes: &[u8], rec: &[Vec<Block>], replay_base
 	for t in singles {
 		// the sentinel stays; a payload field as a whole is ignored by being absent from the target
 		// (the same call into the crate as an `IgnoredAny` field)
-		if t.path.first() == Some(&ctx.u.n_payload) || (t.path.len() == 1 && t.kind == Kind::Ignore) {
+		let sentinel_idx = ctx.u.emb.sentinel_idx(ctx.u.n_payload);
+		if (sentinel_idx.is_some() && t.path.first() == sentinel_idx.as_ref()) || (!ctx.u.emb.bare() && t.path.len() == 1 && t.kind == Kind::Ignore) {
 			continue;
 		}
 		targets.push(vec![t]);
@@ -624,7 +667,7 @@ fn run_leaf(ctx: &Ctx, v: &RValue, bytes: &[u8], rec: &[Vec<Block>], replay_base
 				r["targets"] = json!(tset.iter().map(|t| json!({"path": t.path, "kind": format!("{:?}", t.kind)})).collect::<Vec<_>>());
 				out.push(Violation {
 					class: class.to_owned(),
-					what: format!("schema {} value {v:?} layout {layout} bytes [{}] (+2 padding bytes 2a 2a); target: {desc}; {pname}: {text}", ctx.schema_text, hex(bytes)),
+					what: format!("schema {} value {v:?} layout {layout} bytes [{}] ({}); target: {desc}; {pname}: {text}", ctx.schema_text, hex(bytes), pad_text),
 					replay: r,
 				});
 			}
@@ -637,6 +680,9 @@ fn run_leaf(ctx: &Ctx, v: &RValue, bytes: &[u8], rec: &[Vec<Block>], replay_base
 			}
 			if tset.iter().any(|t| t.kind == Kind::Absent) {
 				cover.count("absent_field_targets", 1);
+			}
+			if ctx.u.emb.ends_input() {
+				cover.count("targets_ending_the_input", 1);
 			}
 			let mut sized = false;
 			for &c in &colls {
@@ -708,7 +754,7 @@ fn run_leaf(ctx: &Ctx, v: &RValue, bytes: &[u8], rec: &[Vec<Block>], replay_base
 						r["chunk"] = json!(k);
 						out.push(Violation {
 							class: class.to_owned(),
-							what: format!("schema {} value {v:?} layout {layout} bytes [{}] (+2 padding bytes 2a 2a); target: {desc}; reader refilling in chunks of {k} bytes: {text}", ctx.schema_text, hex(bytes)),
+							what: format!("schema {} value {v:?} layout {layout} bytes [{}] ({}); target: {desc}; reader refilling in chunks of {k} bytes: {text}", ctx.schema_text, hex(bytes), pad_text),
 							replay: r,
 						});
 					}
@@ -740,8 +786,25 @@ pub struct Job {
 
 fn payload_fields(u: &Unit) -> Vec<&RSchema> {
 	match &u.schema {
+		_ if u.emb.bare() => vec![&u.schema],
+		RSchema::Record { fields, .. } if u.emb.sentinel_idx(u.n_payload) == Some(0) => fields[1..].iter().map(|(_, s)| s).collect(),
 		RSchema::Record { fields, .. } => fields[..u.n_payload].iter().map(|(_, s)| s).collect(),
 		_ => vec![],
+	}
+}
+
+/// The wrapper value around the payload values.
+fn assemble(u: &Unit, mut vals: Vec<RValue>) -> RValue {
+	match u.emb.sentinel_idx(u.n_payload) {
+		None => vals.pop().expect("bare embedding has one payload"),
+		Some(0) => {
+			vals.insert(0, RValue::Long(SENTINEL));
+			RValue::Record(vals)
+		}
+		Some(_) => {
+			vals.push(RValue::Long(SENTINEL));
+			RValue::Record(vals)
+		}
 	}
 }
 
@@ -762,8 +825,7 @@ fn build_a(u: &Unit, env: &Env, p: &Sweep, ch: &mut Chooser) -> (RValue, Vec<u8>
 			_ => gen::gen_value(f, env, ch, false, p.other_items, p.other_rec),
 		});
 	}
-	vals.push(RValue::Long(SENTINEL));
-	let v = RValue::Record(vals);
+	let v = assemble(u, vals);
 	let nv = ch.trace.len();
 	let (bytes, rec, _) = lay::encode_enumerated(&v, &u.schema, env, ch, p.a_layout_cap);
 	(v, bytes, rec, nv)
@@ -775,8 +837,7 @@ fn wide(u: &Unit, env: &Env, p: &Sweep, n: usize) -> Option<RValue> {
 	for f in payload_fields(u) {
 		vals.push(lay::wide_value(f, env, n, p.wide_inner, &mut ctr, 0, 2));
 	}
-	vals.push(RValue::Long(SENTINEL));
-	let v = RValue::Record(vals);
+	let v = assemble(u, vals);
 	let mut sizes = Vec::new();
 	lay::collection_sizes(&v, &mut sizes);
 	if sizes.iter().all(|&s| s <= p.value_items.min(p.wide_inner)) {
@@ -873,7 +934,7 @@ pub fn run(rep: &mut Report) {
 	let p = if rep.thorough() { Params::thorough() } else { Params::quick() }.with_env_override();
 	let us = units(&p);
 	rep.rule = format!(
-		"SAE. Every schema S of Σ_S is embedded as W1 record{{ignored: S, sentinel: long}} (Σ_S level {}), and (Σ_S level {}) W2 record{{a: S, b: S renamed, sentinel}}, W3 record{{arr: array<S>, sentinel}} and record{{m: map<S>, sentinel}}, W4 record{{u: [S, long], sentinel}} (S not itself a union; [long, boolean] for S = long). Sweep A: every value of Σ_V × block layouts (all compositions of an occurrence into blocks × all sign assignments, negative count + byte size; occurrences enumerated jointly while the product of their layout counts <= the cap, one plan per start occurrence); sweep B: deterministic wide values × block layouts under a product cap. Bounds for wrappers with < 3 nested arrays/maps: {}. Bounds for wrappers with >= 3 nested arrays/maps: {}. Sentinel = {SENTINEL}, two padding bytes follow the datum. Each leaf is decoded with the full Hinted hint tree (non-ignoring) and once per ignoring target: every payload field absent from the target struct (W2: a, b, a+b), the whole datum → IgnoredAny, every sub-tree of the payload's hint tree → IgnoredAny (W1: all depths, incl. every element / every map key / every map value / union payloads; W3, W4: one level below the field), every taken non-null union branch as a unit variant; from slice, whole-buffer reader and 1-byte-chunk reader, and — for targets that skip a negative-count (size-prefixed) block — from readers refilling in uniform chunks of every size in {:?} that puts a refill boundary strictly inside a skipped block. Oracle: the ignoring decode is Ok, its observation equals the non-ignoring observation with the ignored part blanked (so the sentinel and every other field are identical), and it consumes exactly the encoded length according to the reference model (= what the non-ignoring decode consumes). Targets that the value does not reach (branch not taken) are not executed. Non-trivial: (schema, bytes, target) where an array/map handed directly to the skipping path is laid out in >= 2 blocks or has a negative-count block; distinct on that triple. Leaf cap {} per job (wrapper × sweep × pick prefix).",
+		"SAE. Every schema S of Σ_S is embedded as W1 record{{ignored: S, sentinel: long}} (Σ_S level {}), and (Σ_S level {}) W2 record{{a: S, b: S renamed, sentinel}}, W3 record{{arr: array<S>, sentinel}} and record{{m: map<S>, sentinel}}, W4 record{{u: [S, long], sentinel}} (S not itself a union; [long, boolean] for S = long); and with the ignored part LAST and no padding, so that the skip ends exactly at the end of the input: L0 the bare datum S, L1 record{{sentinel: long, ignored: S}}, L4 record{{sentinel: long, u: [long, S]}} (targets one level below the field / the root; all other embeddings are followed by two padding bytes). Sweep A: every value of Σ_V × block layouts (all compositions of an occurrence into blocks × all sign assignments, negative count + byte size; occurrences enumerated jointly while the product of their layout counts <= the cap, one plan per start occurrence); sweep B: deterministic wide values × block layouts under a product cap. Bounds for wrappers with < 3 nested arrays/maps: {}. Bounds for wrappers with >= 3 nested arrays/maps: {}. Sentinel = {SENTINEL}. Each leaf is decoded with the full Hinted hint tree (non-ignoring) and once per ignoring target: every payload field absent from the target struct (W2: a, b, a+b), the whole datum → IgnoredAny, every sub-tree of the payload's hint tree → IgnoredAny (W1: all depths, incl. every element / every map key / every map value / union payloads; W3, W4: one level below the field), every taken non-null union branch as a unit variant; from slice, whole-buffer reader and 1-byte-chunk reader, and — for targets that skip a negative-count (size-prefixed) block — from readers refilling in uniform chunks of every size in {:?} that puts a refill boundary strictly inside a skipped block. Oracle: the ignoring decode is Ok, its observation equals the non-ignoring observation with the ignored part blanked (so the sentinel and every other field are identical), and it consumes exactly the encoded length according to the reference model (= what the non-ignoring decode consumes). Targets that the value does not reach (branch not taken) are not executed. Non-trivial: (schema, bytes, target) where an array/map handed directly to the skipping path is laid out in >= 2 blocks or has a negative-count block; distinct on that triple. Leaf cap {} per job (wrapper × sweep × pick prefix).",
 		p.level_w1,
 		p.level_other,
 		p.normal.text(),
@@ -923,6 +984,8 @@ pub fn run(rep: &mut Report) {
 		"reader_intermediate_chunk_runs",
 		"skip_crossed_refill_with_data_after_in_chunk",
 		"wide_leaves",
+		"leaves_ending_the_input",
+		"targets_ending_the_input",
 	];
 	for k in need {
 		if c.get(k).copied().unwrap_or(0) == 0 {
